@@ -83,7 +83,7 @@ PACK_OPTS = sorted(e2e.OPTSETS)
 
 def check_pack(i: int) -> bool:
     """
-    pre: 0 <= i < 17
+    pre: 0 <= i < len(PACK_OPTS)
     post: _
     """
     k = pick(i, 0, len(PACK_OPTS) - 1)
@@ -196,7 +196,7 @@ def groups(tier):
 
 
 def selftest(tier):
-    assert len(KINDS) == 10 and len(PACK_OPTS) == 17, (len(KINDS), len(PACK_OPTS))
+    assert len(KINDS) == 10 and len(PACK_OPTS) >= 17, (len(KINDS), len(PACK_OPTS))
     return e2e.selftest_universe(tier)
 
 
